@@ -108,3 +108,22 @@ Example C13_fol_shape_example :
   shape_okb [FObj FPred [] [] 1 (NP 1 1 [] VTransparent); FObj FPred [] [] 2 (NP 1 1 [] VTransparent);
              FObj (FConn CAnd) [0%nat; 1%nat] [[0%nat]; [0%nat; 1%nat]] 2 (NP 1 1 [1; 1] VTransparent)] = true.
 Proof. vm_compute. reflexivity. Qed.
+
+(* quantifiers: the amount an upward call of Forall / Exists returns (any free variables, fully_grounded or not, any
+   stored neurons -- also groups whose neuron is rebuilt because the number of instances changed) is non-negative and zero
+   EXACTLY when no group's bounds move *)
+From LNN Require Import Quant.
+From LNN.proofs Require Import QuantProofs AmountQuantProofs.
+Theorem C13_quantifier_upward_amount : forall q s rows, rows <> [] ->
+  0 <= snd (q_up q s rows) /\
+  (snd (q_up q s rows) == 0 <->
+   forall g, In g (group_keys q rows) ->
+     let inst := map snd (group_rows q rows g) in
+     let old := neuron_bounds q s g (length inst) in
+     bnd_eq (agg_bnd (qwhich q) old (act_up (qconn q) (unit_np (length inst)) inst)) old).
+Proof. intros q s rows Hne. split; [apply q_up_amount_nonneg | apply q_up_amount_zero_iff; exact Hne]. Qed.
+Print Assumptions C13_quantifier_upward_amount.
+(* non-vacuity: a Forall over one free variable, one stored group at UNKNOWN, an instance that tightens it: amount 1/2 *)
+Example C13_quantifier_amount_example :
+  Qred (snd (q_up (QObj QForall 0 [0%nat] false (B 0 1)) qempty [([0%nat; 1%nat], B (1#4) (1#2))])) = 1#2.
+Proof. vm_compute. reflexivity. Qed.
